@@ -1838,7 +1838,8 @@ class C01(Prop):
             "point in its own child process (8 MiB stack, 20 s); non-trivial = every case")
     trusted = ["guard pages detect reads and writes outside the input buffer only at page granularity on the side that abuts the unmapped page (hence both "
                "placements); accesses inside the library's own heap blocks are checked by the allocator's consistency only",
-               "no sanitizer build is available offline; Miri cannot run the AVX2 paths"]
+               "no sanitizer build is available offline; Miri cannot run the AVX2 paths, and in a baseline build it stops in the DOM at once (node pointers "
+               "are rebuilt from integers: `no provenance` even with -Zmiri-permissive-provenance; Stacked Borrows rejects the neighbour-node arithmetic)"]
     assumptions = []
     DEEP_LIMIT_OK = 1000    # up to this nesting every entry point must return
 
